@@ -77,7 +77,7 @@ fn verify_snapshot<K: Kt>(snap: &Path, name: &str, model: &Model, keys: &[Vec<u8
     if let Some(m) = decoder::contents_mismatch(&img, &dec, model) {
         return Err(finding(&["C03"], "snapshot", at, format!("{what}: snapshot of map {name} decodes to other contents: {m}")));
     }
-    let mut s = Session::<K> { dir: snap.to_path_buf(), name: name.to_string(), db: None, map: None, extra: vec![], model: model.clone(), n_buckets: 0, budget: crate::session::STEP_BUDGET_BASE, updates_since_sync: 0, last_decoded: None, peak_live: model.len() };
+    let mut s = Session::<K>::attach(snap, name, model.clone(), model.len());
     if let Err(e) = s.open(&Cfg::small(8)) {
         return Err(finding(&["C03"], "snapshot", at, format!("{what}: snapshot of map {name} does not open: {e}")));
     }
